@@ -1,5 +1,6 @@
 (* C19 — the bundled IdP server issues assertions only to authenticated users *)
-From Saml Require Import Base IdpServer IdpServerProofs.
+From Saml Require Import Base IdpServer IdpServerProofs IdpServerRestartProofs.
+Local Open Scope list_scope.
 
 (* All statements are about IdpServer.step (the model of samlidp/*.go and of
    ServeSSO / ServeIDPInitiated that the correspondence check evaluates against
@@ -97,6 +98,30 @@ Theorem C19_password_exact : forall now h fp n u pw,
   (verify (u_hash u) pw = true <-> u_hash u = hash pw).
 Proof. exact (password_exact H hash verify empty_hash verify_hash verify_empty). Qed.
 
+(* The in-memory registry is exactly what the stored services say (entity ID e
+   is registered with metadata md iff some stored service id holds md with that
+   entity ID), after every history under every fault plan — provided no two
+   stored service ids ever share an entity ID (hist_nodup; known finding K3
+   otherwise, see C19_duplicate_entity_refuted). *)
+Theorem C19_registry_consistent : forall now h fp,
+  hist_nodup H hash verify empty_hash (init_state H now) h fp ->
+  let s := fst (run_hist hash verify empty_hash (init_state H now) h fp) in
+  forall e md, alookup e (registry s) = Some md <-> exists id, alookup id (services s) = Some md /\ md_entity md = e.
+Proof.
+  intros now h fp HN. apply (registry_consistent H hash verify empty_hash verify_hash verify_empty h _ _); [|exact HN].
+  split; cbn; [constructor|]. intros e md. split; [discriminate|]. intros (id & X & _). discriminate.
+Qed.
+
+(* Hence a server re-created over the same store continues every history
+   exactly as the original: inserting Restart after any prefix h1 leaves every
+   later reply unchanged, for every continuation h2 and every fault plan. *)
+Theorem C19_restart_refines : forall now h1 h2 fp,
+  hist_nodup H hash verify empty_hash (init_state H now) h1 fp ->
+  replies hash verify empty_hash (init_state H now) (h1 ++ Restart :: h2) fp =
+  replies hash verify empty_hash (init_state H now) h1 fp ++
+  [] :: skipn (List.length h1) (replies hash verify empty_hash (init_state H now) (h1 ++ h2) fp).
+Proof. exact (restart_refines H hash verify empty_hash verify_hash verify_empty). Qed.
+
 End C19.
 
 (* the boolean monitor of the correspondence check (auth_okb, registered_okb,
@@ -121,6 +146,11 @@ Theorem C19_assertion_reachable_and_refused :
    has_assertion (last_reply (ex_setup ++ [Sso (mkrq "https://sp1/metadata" "") (Password "alice" "pw1")]) [NoFault; NoFault; NoFault; NoFault; IOErr]) = false).
 Proof. split; [exact assertion_reachable|exact assertion_refused]. Qed.
 
+(* the hypothesis of the two restart theorems is satisfiable *)
+Theorem C19_restart_hypothesis_satisfiable :
+  hist_nodup H0 hash0 verify0 empty0 (init_state H0 0) [PutService "a" ex_md1; Restart] [].
+Proof. exact restart_hypothesis_satisfiable. Qed.
+
 (* Known finding K3 (two service ids with one entity ID): the hypothesis
    nodup_entity of the restart theorems cannot be dropped *)
 Theorem C19_duplicate_entity_refuted :
@@ -136,6 +166,9 @@ Print Assumptions C19_hash_never_disclosed.
 Print Assumptions C19_one_reply.
 Print Assumptions C19_faults_fail_closed.
 Print Assumptions C19_password_exact.
+Print Assumptions C19_registry_consistent.
+Print Assumptions C19_restart_refines.
 Print Assumptions C19_monitor_holds_of_model.
 Print Assumptions C19_assertion_reachable_and_refused.
+Print Assumptions C19_restart_hypothesis_satisfiable.
 Print Assumptions C19_duplicate_entity_refuted.
